@@ -444,17 +444,37 @@ RULES = [
 
 
 # ------------------------------------------------------------------ SIGN / CARRY (structural halves of the numeric clauses)
+_SIGNVAL = [None]   # valuation of a separate sign group (+1 / -1) while a form with sign-concatenation is evaluated
+_SIGN_CONCAT = [False]
+
+
+def _is_sign_group(g):
+    """A capture group that can only hold '', '+' or '-'."""
+    try:
+        ok, _, _ = included(group_lang(g[0], g[1]), Lang([r"[-+]?"], mode="fullmatch"))
+        return ok
+    except Undecided:
+        return False
+
+
 def _linform(t):
     """Linear form {symbol: coeff, 1: const} of an arithmetic term over capture-group symbols, or None.
-    Symbols are (pattern, group index) pairs: float()/int() of a capture group."""
+    Symbols are (pattern, group index) pairs: float()/int() of a capture group.  float(sign_group + digits_group)
+    is sign x digits; the sign's value comes from _SIGNVAL (the caller evaluates the form once per sign)."""
     if isinstance(t, Const) and isinstance(t.v, (int, float)) and not isinstance(t.v, bool):
         return {1: float(t.v)}
     if not isinstance(t, Term):
         return None
     if t.op == "call" and isinstance(t.args[0], Builtin) and t.args[0].name in ("float", "int") and t.args[1]:
-        g = _group_ref(t.args[1][0])
+        a0 = t.args[1][0]
+        g = _group_ref(a0)
         if g is not None:
             return {g: 1.0}
+        if isinstance(a0, Term) and a0.op == "binop" and a0.args[0] == "+":
+            sg, dg = _group_ref(a0.args[1]), _group_ref(a0.args[2])
+            if sg is not None and dg is not None and _is_sign_group(sg):
+                _SIGN_CONCAT[0] = True
+                return {dg: float(_SIGNVAL[0] if _SIGNVAL[0] is not None else 1)}
         return None
     if t.op == "unary" and t.args[0] in ("USub", "UAdd"):
         f = _linform(t.args[1])
@@ -495,9 +515,20 @@ def rule_sign(ctx):
         s = Term("param", "s", pytype="str")
         paths = run_method(p, f, args=[s, Const(fmt)], opts={"assert_forks": True, "fork_ifexp": True})
         ctx.paths_enumerated += len(paths)
+        work = []
         for pa in paths:
             if pa.outcome != "return" or pa.value is None:
                 continue
+            _SIGNVAL[0], _SIGN_CONCAT[0] = None, False
+            form = _linform(pa.value)
+            for e in pa.assumes():
+                _linform(e.data["cond"].args[1]) if isinstance(e.data["cond"], Term) and e.data["cond"].op == "cmp" and len(e.data["cond"].args) > 2 else None
+            if _SIGN_CONCAT[0]:
+                work.extend((pa, sv) for sv in (+1, -1))   # the sign enters through float(sign + digits): one evaluation per sign
+            else:
+                work.append((pa, None))
+        for pa, signval in work:
+            _SIGNVAL[0] = signval
             form = _linform(pa.value)
             if form is None:
                 continue  # plain int()/float() of the whole text, None, ...
@@ -554,7 +585,7 @@ def rule_sign(ctx):
                     ctx.violated("C10.SIGN", f.short, f"under format {fmt} the sign is part of capture group {sg[1]} only, while the other fields are added with a fixed positive coefficient: '-1:30' is read as -1 + 0.5 instead of -(1 + 0.5)", fi=f, text="sign-on-first-field-only", witness="-0:30")
                     bad = True
                 continue
-            expect_sign = sep_sign if sep_sign is not None else +1
+            expect_sign = sep_sign if sep_sign is not None else (signval if signval is not None else +1)
             live = [g for g in order if g not in zero_syms]
             mism = [g for i, g in enumerate(order) if g in live and abs(form.get(g, 0.0) - expect_sign * weights[min(i, 2)]) > 1e-12]
             if mism and len(order) <= 3:
